@@ -287,7 +287,7 @@ impl<'m> MCTPSMBusContext<'m> {
                     ));
                 }
 
-                Ok((MessageType::VendorDefinedIANA, &packet[9..(packet_len - 1)]))
+                Ok((MessageType::VendorDefinedIANA, &packet[9..(packet_len)]))
             }
             MessageType::SpdmOverMctp => {
                 let packet_len = packet.len() - 1;
